@@ -44,7 +44,11 @@ def job_case(job):
                            "model_parameters": {"fit_turnout_outlier_model": False, "fit_margin_outlier_model": False}}}
         return case
     pi = rng.choice(["nonparametric", "gaussian"])
-    return gen.gen_case(rng, pi_method=pi, features=[], fixed_effects={}, outlier=False)
+    kw = {}
+    if kind == "regularised":
+        # a regularisation constant must not touch the intercept: the swing factor stays the weighted median
+        kw["model_parameters"] = {"lambda_": rng.choice([0.5, 1.0, 10.0])}
+    return gen.gen_case(rng, pi_method=pi, features=[], fixed_effects={}, outlier=False, **kw)
 
 
 def worker(job):
@@ -96,13 +100,15 @@ def worker(job):
             for last, res, pv in units:
                 exact = max((1 + m) * last, Fr(res))
                 near_tie = abs((exact - Fr(1, 2)) - round(exact - Fr(1, 2))) < Fr(1, 10**6)
-                if abs(Fr(pv) - exact) > Fr(1, 2) + (Fr(1, 10**6) if near_tie else 0):
+                slack = Fr(1) if job[1] == "regularised" else (Fr(1, 10**6) if near_tie else 0)
+                if abs(Fr(pv) - exact) > Fr(1, 2) + slack:
                     out["s"].append({"what": f"{e}: unit with baseline+1={last}, partial count {res} predicted {pv}, uniform swing by the weighted median {float(m)} gives {float(exact)}",
                                      "kind": "not-uniform-swing"})
                     break
         lit = llit([f"({qlit(w)}, {qlit(Fr(res - last, last))})" for last, res, w in obs])
         us = llit([f"({zlit(a)}, {zlit(b_)}, {zlit(c)})" for a, b_, c in units])
-        out["exprs"].append(f"check_swing {lit} {qlit(coef)} {us}")
+        fn = "check_swing_approx" if job[1] == "regularised" else "check_swing"
+        out["exprs"].append(f"{fn} {lit} {qlit(coef)} {us}")
         out["labels"].append(f"{e}")
         out["unique"] = bool(strict)
     out["sample"] = {"seed": job[0], "kind": job[1], "estimator": p["pi_method"], "estimands": p["estimands"], "reporting": len(h["rep_ids"]), "nonreporting": len(h["nonrep_ids"]),
@@ -116,7 +122,7 @@ def run(chk):
                         "through the captured coefficient (1e-9)"]
     rng = random.Random(chk.seed * 503 + 5)
     n = 24 if chk.tier == "quick" else 400
-    jobs = [(rng.randint(0, 2**31), "nonunique" if i % 6 == 5 else "random") for i in range(n)]
+    jobs = [(rng.randint(0, 2**31), "nonunique" if i % 6 == 5 else ("regularised" if i % 6 == 2 else "random")) for i in range(n)]
     outs = core.pmap(worker, jobs)
     exprs, idx = [], []
     n_ok = 0
